@@ -281,6 +281,22 @@ impl Scheduler {
                 // jobs of the execution graph
                 for &from_coord in from.replicas.values().flatten() {
                     let to: Vec<_> = to.replicas.values().flatten().collect();
+                    // a forward (OnlyOne) producer without a same-(host, replica) consumer would
+                    // get no consumer at all and its output would be silently dropped
+                    let orphan = from.is_only_one_strategy
+                        && !fragile
+                        && to.len() > 1
+                        && !to.iter().any(|t| {
+                            t.host_id == from_coord.host_id && t.replica_id == from_coord.replica_id
+                        });
+                    if orphan {
+                        // deterministic on every host: sorted consumers, global id of the producer
+                        let mut sorted = to.clone();
+                        sorted.sort();
+                        let idx = from.global_ids[&from_coord] as usize % sorted.len();
+                        self.network
+                            .connect(from_coord, *sorted[idx], typ, fragile);
+                    }
                     for &to_coord in &to {
                         if from.is_only_one_strategy || fragile {
                             if to.len() == 1
